@@ -90,13 +90,15 @@ Definition smat_eqb {X} (e : X -> X -> bool) (a b : smat X) : bool :=
 (* ---------------------------------------------------------------- instances *)
 Definition W_plain := write_plain el el el_fmtJ.
 Definition R_plain := read_plain el el el_parseJ.
-Definition W_const := write_const el el.
+Definition W_const := write_const el el el_fmtJ.
+(* Real32/Real64 are float types: the zeros of a Hessian-only gradient are +0.0 *)
+Definition R_real := read_real el el (EF 0%float) el_parseJ.
 Definition W_real := write_real el el el_nz el_fmtJ.
 
 Definition W_dv_plain := write_dv el el W_plain.
 Definition R_dv_plain := read_dv el el R_plain.
 Definition W_dv_real := write_dv (real el) (sdoc el) W_real.
-Definition R_dv_real := read_dv (real el) (sdoc el) (read_real el el el_parseJ).
+Definition R_dv_real := read_dv (real el) (sdoc el) R_real.
 
 Definition W_sv := write_sv el el el_fmtJ sel sel_val sel_nul.
 Definition R_sv := read_sv el el el_nz el_parseJ.
@@ -104,7 +106,7 @@ Definition R_sv := read_sv el el el_nz el_parseJ.
 Definition W_dm_plain (z : el) := write_dm el el W_plain z.
 Definition R_dm_plain := read_dm el el R_plain false.
 Definition W_dm_real (z : el) := write_dm (real el) (sdoc el) W_real (mkReal z 0 0 [] []).
-Definition R_dm_real := read_dm (real el) (sdoc el) (read_real el el el_parseJ) true.
+Definition R_dm_real := read_dm (real el) (sdoc el) R_real true.
 
 Definition W_sm := write_sm el el el_fmtJ sel sel_val sel_nul.
 Definition R_sm := read_sm el el el_nz el_parseJ.
@@ -130,7 +132,7 @@ Definition sm_hdr_eqb {X} (a b : smat X) : bool :=
    Go's reader made of those bytes; a malformed case: a document and Go's reader outcome *)
 Inductive case : Type :=
 | RtPlain (x : el) (gw : res el) (gr : res el)
-| RtConst (x : el) (gw : res el)
+| RtConst (x : el) (gw : res el) (gr : res el)        (* read back into the mutable scalar of the same number type *)
 | RtReal (r : real el) (gw : res (sdoc el)) (gr : res (real el))
 | RtDvP (v : list el) (gw : res (list el)) (gr : res (list el))
 | RtDvR (v : list (real el)) (gw : res (list (sdoc el))) (gr : res (list (real el)))
@@ -157,8 +159,8 @@ Definition mal {Dc R} (r : Dc -> res R) (re : R -> R -> bool) (d : res Dc) (gr :
 Definition check (c : case) : bool :=
   match c with
   | RtPlain x gw gr => rt W_plain R_plain el_eqb el_eqb x gw gr
-  | RtConst x gw => res_eqb el_eqb (W_const x) gw
-  | RtReal r gw gr => rt W_real (read_real el el el_parseJ) sdoc_eqb real_eqb r gw gr
+  | RtConst x gw gr => rt W_const R_plain el_eqb el_eqb x gw gr
+  | RtReal r gw gr => rt W_real R_real sdoc_eqb real_eqb r gw gr
   | RtDvP v gw gr => rt W_dv_plain R_dv_plain ell_eqb ell_eqb v gw gr
   | RtDvR v gw gr => rt W_dv_real R_dv_real (list_eqb sdoc_eqb) (list_eqb real_eqb) v gw gr
   | RtSv v gw gr => rt W_sv R_sv svdoc_eqb (svec_eqb el_eqb) v gw gr
@@ -171,7 +173,7 @@ Definition check (c : case) : bool :=
   | RtSm r0 c0 ops m gw gr =>
       sm_hdr_eqb (fold_left sm_apply ops (mkSm (sm_vals m) r0 c0 0 r0 0 c0)) m &&
       rt W_sm R_sm smdoc_eqb (smat_eqb el_eqb) m gw gr
-  | MalReal d gr => mal (read_real el el el_parseJ) real_eqb d gr
+  | MalReal d gr => mal R_real real_eqb d gr
   | MalDvP d gr => mal R_dv_plain ell_eqb d gr
   | MalDvR d gr => mal R_dv_real (list_eqb real_eqb) d gr
   | MalSv d gr => mal R_sv (svec_eqb el_eqb) d gr
